@@ -8,7 +8,7 @@ from mirutil import (call_name_matches, provenance, bool_switch, edge_dominates,
 LEVEL = "other"
 EXPLANATION = (
     "Decides structural clauses of C06 from the MIR of sophia_c14n. (R6.1) the canonical N-Quads escaping table of _cnq::nq, read "
-    "from the character switch: \\\" \\\\ \\n \\r \\t \\b \\f, \\u007F for DEL, and for the other C0 controls `\\u` + four UPPER-case hex "
+    "from the character switch: \\\" \\\\ \\n \\r \\t \\b \\f, \\u007F for DEL, \\uFFFE / \\uFFFF for the two BMP non-characters (outside XML 1.1 Char), and for the other C0 controls `\\u` + four UPPER-case hex "
     "digits (zero-padded, width 4, Argument::new_upper_hex), every other character pushed unchanged — compared with the "
     "table of RDFC-1.0 / RDF 1.2 canonical N-Quads held in the checker. (R6.2) the two safeguards can only fail: every read of "
     "depth_factor / permutation_limit flows into a comparison whose taken edge returns Err(ToxicGraph), or into that error's "
@@ -21,12 +21,15 @@ EXPLANATION = (
     "NOT decided: equality with the W3C algorithm's output (hash inputs, "
     "path comparison and pruning, issuer copies).")
 
-CANON = {34: '\\"', 92: "\\\\", 10: "\\n", 13: "\\r", 9: "\\t", 8: "\\b", 12: "\\f", 127: "\\u007F"}
+# U+FFFE / U+FFFF: "characters not matching the Char production of XML 1.1 MUST be represented by UCHAR" (canonical N-Quads);
+# in a Rust string these are U+0000 (in the C0 range below) and the two non-characters of the BMP.
+CANON = {34: '\\"', 92: "\\\\", 10: "\\n", 13: "\\r", 9: "\\t", 8: "\\b", 12: "\\f", 127: "\\u007F",
+         0xFFFE: "\\uFFFE", 0xFFFF: "\\uFFFF"}
 
 PANIC_TABLE = {
     "rdfc10::C14nState::<'_, H, T>::hash_related_bnode#unwrap:unwrap:call:sophia_api::prelude::Term::iri":
-        (1, "position != g, so the component pair is (s|p|o): the predicate of a quad that passed step 2 is not a blank node, quoted "
-            "triple or variable, i.e. an IRI (literals cannot be predicates of a well-formed quad)"),
+        (1, "position != g, so the component pair is (s|p|o): the predicate of a quad that passed step 2 is not a blank node, literal, "
+            "quoted triple or variable (all four rejected with Unsupported: R6.3), i.e. an IRI"),
     "rdfc10::C14nState::<'_, H, T>::hash_related_bnode#unwrap:unwrap:call:std::collections::BTreeMap::<K, V, A>::get":
         (1, "b2h has an entry for every blank node of the dataset (filled in step 3 for every key of b2q)"),
     "rdfc10::C14nState::<'_, H, T>::hash_n_degree_quads#unwrap:unwrap:call:std::collections::BTreeMap::<K, V, A>::get":
@@ -288,11 +291,11 @@ def unsupported_rule(ck, facts):
                 en = comes_from_call(fn, od[1]["args"][0], r"BTreeMap::<K, V, A>::entry$|BTreeMap::<K, V>::entry$", transparent=())
                 if en and any(p.endswith(":b2q") for p in root_local(fn, en[1]["args"][0])[1]):
                     ins.append(bi)
-    tests = {"is_blank_node": None, "is_triple": None, "is_variable": None}
+    tests = {"is_blank_node": None, "is_literal": None, "is_triple": None, "is_variable": None}
     for bi in range(len(fn.blocks)):
         bs = bool_switch(fn, bi)
         if bs and bs[0][0] == "call":
-            m = re.search(r"Term>?::(is_blank_node|is_triple|is_variable)$", bs[0][1]["f"].get("name") or "")
+            m = re.search(r"Term>?::(is_blank_node|is_literal|is_triple|is_variable)$", bs[0][1]["f"].get("name") or "")
             if m:
                 # the true edge must reach an Unsupported error and not the insertion
                 reach = fn.reachable(bs[1], avoid={bs[2]})
@@ -310,7 +313,183 @@ def unsupported_rule(ck, facts):
             ck.bad("R6.3", "R6.3@relabel_with#late-test:%s" % ",".join(sorted(set(bad))), "a quad can be recorded before the %s test: unsupported "
                    "input is not rejected first" % sorted(set(bad)), fn.loc)
         else:
-            ck.ok("R6.3", "blank predicate / quoted triple / variable -> Err(Unsupported) before the quad is recorded")
+            ck.ok("R6.3", "blank or literal predicate / quoted triple / variable -> Err(Unsupported) before the quad is recorded")
+    if ins:
+        quad_reference_once_rule(ck, fn, ins)
+    else:
+        ck.bad("R6.8", "R6.8@relabel_with#anchor", "anchor-missing: the insertion into the blank-node-to-quads map", fn.loc)
+
+
+def derived_locals(fn, seeds, within):
+    """locals computed (by assignments or calls, in blocks of `within`) from the seed locals"""
+    tainted = set(seeds)
+
+    def mentions(x):
+        if isinstance(x, list):
+            if len(x) == 2 and x[0] in ("c", "m") and isinstance(x[1], list) and x[1] and x[1][0] in tainted:
+                return True
+            if len(x) == 3 and x[0] in ("ref", "rawptr") and isinstance(x[2], list) and x[2] and x[2][0] in tainted:
+                return True
+            return any(mentions(y) for y in x)
+        return False
+    changed = True
+    while changed:
+        changed = False
+        for bi in within:
+            b = fn.blocks[bi]
+            for st in b["s"]:
+                if st[0] == "=" and mentions(st[2]) and st[1][0] not in tainted:
+                    tainted.add(st[1][0])
+                    changed = True
+            t = b["t"]
+            if t["t"] == "call" and mentions(t["args"]) and t["dest"] and t["dest"][0] not in tainted:
+                tainted.add(t["dest"][0])
+                changed = True
+    return tainted
+
+
+def unguarded_entry_pushes(fn, pushes):
+    """of the given `entry(..).or_default().push(..)` blocks, those reached from or_default without a test on the list"""
+    out = []
+    for pb in pushes:
+        t = fn.blocks[pb]["t"]
+        od = comes_from_call(fn, t["args"][0], r"::or_default$|::or_insert(_with)?$", transparent=())
+        if not od:
+            out.append(pb)
+            continue
+        odb = [bi for bi, tt in fn.calls() if tt is od[1]][0]
+        region = {b for b in fn.reachable(fn.blocks[odb]["t"]["to"]) if fn.dominates(odb, b)}
+        der = derived_locals(fn, {od[1]["dest"][0]}, region)
+        guarded = False
+        for sb in region:
+            bs = bool_switch(fn, sb)
+            tt = fn.blocks[sb]["t"]
+            if bs and fn.dominates(sb, pb) and sb != pb and tt["on"][0] != "k" and tt["on"][1][0] in der:
+                # one edge must avoid the push
+                if any(pb not in fn.reachable(e, avoid={sb}) for e in (bs[1], bs[2])):
+                    guarded = True
+        if not guarded:
+            out.append(pb)
+    return out
+
+
+def reference_once_controls(ck):
+    import core
+    for nm, expect in (("pos_refs_per_occurrence", True), ("neg_refs_once", False), ("neg_refs_contains", False)):
+        f = core.fixture_fn(nm)
+        pushes = [bi for bi, t in f.calls() if call_name_matches(t, r"Vec::<T, A>::push$")]
+        if len(pushes) != 1:
+            raise CheckError("control %s: expected one push (fail closed)" % nm)
+        ck.control("R6.8", nm, bool(unguarded_entry_pushes(f, pushes)), expect=expect)
+
+
+def quad_reference_once_rule(ck, fn, ins):
+    """R6.8 (RDFC-1.0 step 2.1): a quad is referenced once per blank node that is a component of it.  The per-component loop
+    must therefore test the node's list (last element / membership) before pushing the quad, or the map must hold sets."""
+    bad = unguarded_entry_pushes(fn, ins)
+    if bad:
+        t = fn.blocks[bad[0]]["t"]
+        ck.bad("R6.8", "R6.8@relabel_with#quad-referenced-per-occurrence", "the quad is pushed to the blank node's list once per position "
+               "holding that node, with no test on the list: `_:a <p> _:a` is referenced twice by _:a, its line is hashed twice and "
+               "the issued identifiers differ from the W3C algorithm's (step 2.1 adds one reference per blank node)", "%s:%s" % (t["file"], t["line"]))
+    else:
+        ck.ok("R6.8", "relabel_with: the push into b2q[node] is guarded by a test on that list (one reference per blank node and quad)")
+
+
+def _leaves(fn, operand, depth=0, seen=None):
+    """syntactic leaves an arithmetic value is computed from: ('field', name) | ('len', field-or-type) | ('param', n) | ('const', v)"""
+    seen = seen if seen is not None else set()
+    if depth > 12:
+        return {("unknown", "")}
+    if operand[0] == "k":
+        return {("const", str(operand[1].get("v")))}
+    o = fn.origin(operand)
+    if o[0] == "const":
+        return {("const", str(o[1].get("v")))}
+    if o[0] == "param":
+        flds = [p.split(":")[1] for p in o[2] if ":" in p and p.split(":")[1]]
+        return {("field", flds[-1])} if flds else {("param", o[1])}
+    if o[0] == "rvalue":
+        rv = o[1]
+        if rv[0] in ("bin",):
+            return _leaves(fn, rv[2], depth + 1, seen) | _leaves(fn, rv[3], depth + 1, seen)
+        if rv[0] in ("cast",):
+            return _leaves(fn, rv[2], depth + 1, seen)
+        if rv[0] == "un":
+            return _leaves(fn, rv[2], depth + 1, seen)
+        return {("unknown", rv[0])}
+    if o[0] == "call":
+        t = o[1]
+        nm = t["f"].get("res_name") or t["f"].get("name") or ""
+        if re.search(r"::len$", nm) and t["args"]:
+            a0 = t["args"][0]
+            if a0[0] != "k" and len(a0[1]) == 1:
+                sd = fn.single_def(a0[1][0])
+                if sd and sd[2][0] == "ref" and len(sd[2][2]) == 1 and not (1 <= sd[2][2][0] <= fn.argc):
+                    return {("len", fn.locals[sd[2][2][0]]["ty"])}
+            oo = fn.origin(a0)
+            named = lambda proj: [p.split(":")[1] for p in proj if ":" in p and p.split(":")[1] and not p.split(":")[1].isdigit()]
+            if oo[0] == "param" and named(oo[2]):
+                return {("len", named(oo[2])[-1])}
+            if oo[0] == "place" and oo[1]:
+                if named(oo[1][1:]):
+                    return {("len", named(oo[1][1:])[-1])}
+                return {("len", fn.locals[oo[1][0]]["ty"] if len(oo[1]) == 1 else "a component of " + fn.locals[oo[1][0]]["ty"])}
+            if oo[0] == "call":
+                return {("len", "result of " + (oo[1]["f"].get("res_name") or oo[1]["f"].get("name") or "?"))}
+            return {("len", "?")}
+        return {("call", nm)}
+    if o[0] == "place" and o[1]:
+        flds = [p.split(":")[1] for p in o[1][1:] if ":" in p and p.split(":")[1]]
+        if flds:
+            return {("field", flds[-1])}
+    return {("unknown", o[0])}
+
+
+def limits_rule(ck, facts):
+    """R6.9 / R6.10: what the two safeguards of Hash N-Degree Quads are compared with."""
+    fns = facts.find_fns(crate="sophia_c14n", name_re=r"C14nState::<'_, H, T>::hash_n_degree_quads$")
+    if len(fns) != 1:
+        ck.bad("R6.9", "R6.9@hash_n_degree_quads#anchor", "anchor-missing: hash_n_degree_quads (%d)" % len(fns))
+        return
+    fn = fns[0]
+    cmps = []
+    for bi in range(len(fn.blocks)):
+        bs = bool_switch(fn, bi)
+        if bs and bs[0][0] == "rvalue" and bs[0][1][0] == "bin" and bs[0][1][1] in ("Gt", "Lt", "Ge", "Le"):
+            a, b = _leaves(fn, bs[0][1][2]), _leaves(fn, bs[0][1][3])
+            cmps.append((bi, a, b))
+    perm = [(bi, a, b) for bi, a, b in cmps if ("field", "permutation_limit") in a | b]
+    depth = [(bi, a, b) for bi, a, b in cmps if ("field", "depth_factor") in a | b]
+    if not perm or not depth:
+        ck.bad("R6.9", "R6.9@hash_n_degree_quads#shape", "cannot find the comparisons with permutation_limit / depth_factor (%d/%d)" % (len(perm), len(depth)), fn.loc)
+        return
+    # R6.9: the quantity compared with the permutation limit
+    for bi, a, b in perm:
+        other = b if ("field", "permutation_limit") in a else a
+        occ = [x for x in other if x[0] == "len" and "Vec<std::boxed::Box<str>>" in x[1]]
+        if occ:
+            ck.bad("R6.9", "R6.9@hash_n_degree_quads#limit-counts-occurrences", "the permutation limit (documented as a number of "
+                   "undistinguishable blank nodes) is compared with the length of the Hn[hash] list, which holds one entry per "
+                   "*occurrence* of a related node (R6.5): `_:n <p> _:m` stated in 7 named graphs gives [m,m,m,m,m,m,m] and fails "
+                   "with ToxicGraph at the default limit 6 although one node has nothing to permute (and k! identical permutations are "
+                   "enumerated below the limit)", "%s:%s" % (fn.file, fn.blocks[bi]["t"].get("line")))
+        else:
+            ck.ok("R6.9", "the permutation limit is compared with %s" % sorted(other))
+    # R6.10: the bound of the recursion depth
+    for bi, a, b in depth:
+        bound = a if ("field", "depth_factor") in a else b
+        sized = [x for x in bound if x[0] == "len"]
+        absolute = [(bj, x, y) for bj, x, y in cmps if bj != bi and (("param", 4) in x and all(l[0] == "const" for l in y)
+                                                                      or ("param", 4) in y and all(l[0] == "const" for l in x))]
+        if sized and not absolute:
+            ck.bad("R6.10", "R6.10@hash_n_degree_quads#depth-bound-grows-with-input", "the only bound on the recursion depth is depth_factor x "
+                   "len(%s): with the default factor 1.0 it can never trigger before the recursion is as deep as the dataset has "
+                   "blank nodes, so a plain chain `_:n0 <p> _:n1 . _:n1 <p> _:n2 . ...` of a few hundred (dev) / thousand (release) "
+                   "nodes overflows the stack and aborts the process instead of returning a result or a C14nError" % sized[0][1],
+                   "%s:%s" % (fn.file, fn.blocks[bi]["t"].get("line")))
+        else:
+            ck.ok("R6.10", "recursion depth bounded by %s%s" % (sorted(bound), " and an absolute bound" if absolute else ""))
 
 
 def related_list_rule(ck, facts):
@@ -457,7 +636,9 @@ def run(ck, facts, tier):
     issuer_copy_rule(ck, facts)
     escape_rule(ck, facts)
     safeguards_rule(ck, facts)
+    reference_once_controls(ck)
     unsupported_rule(ck, facts)
+    limits_rule(ck, facts)
     fns = [f for f in facts.fns.values() if f.crate == "sophia_c14n" and re.search(r"c14n/src/(rdfc10|_cnq|_permutations|hash)\.rs$", f.file)]
     sites = []
     for f in sorted(fns, key=lambda x: x.id):
